@@ -114,13 +114,14 @@ func stamp(t time.Time) string {
 }
 
 type c08Case struct {
-	Times []int // per node: 0 = zero value, 1..3 = t1 < t2 < t3
-	Perm  []int // list order
-	K     int   // nodes to taint
-	Min   int   // min_nodes (a binding clamp when K > n - Min)
-	Annot bool  // the first listed node carries the no-delete annotation (it can still be tainted)
-	Dry   bool  // the group runs in dry mode: tainting is recorded in its taint tracker only
-	Busy  bool  // taint_effect NoExecute and the oldest node still runs a pod (it is tainted first all the same)
+	Times  []int // per node: 0 = zero value, 1..3 = t1 < t2 < t3
+	Perm   []int // list order
+	K      int   // nodes to taint
+	Min    int   // min_nodes (a binding clamp when K > n - Min)
+	Annot  bool  // the first listed node carries the no-delete annotation (it can still be tainted)
+	Dry    bool  // the group runs in dry mode: tainting is recorded in its taint tracker only
+	MaxAge bool  // max_node_age 25m: nodes created at t1 (and the zero value) are over age, t2 / t3 are not
+	Busy   bool  // taint_effect NoExecute and the oldest node still runs a pod (it is tainted first all the same)
 }
 
 func c08Build(p c08Case) *h.Scenario {
@@ -131,8 +132,11 @@ func c08Build(p c08Case) *h.Scenario {
 	if p.Busy {
 		g.Opts.TaintEffect = "NoExecute"
 	}
+	if p.MaxAge {
+		g.Opts.MaxNodeAge = "25m"
+	}
 	return &h.Scenario{
-		Name: fmt.Sprintf("c08.t%v.p%v.k%d.m%d.a%v.d%v.b%v", p.Times, p.Perm, p.K, p.Min, p.Annot, p.Dry, p.Busy), CovName: "c08.grid", Groups: []h.GroupSpec{g}, Slots: 1, Quantum: Q,
+		Name: fmt.Sprintf("c08.t%v.p%v.k%d.m%d.a%v.d%v.b%v", p.Times, p.Perm, p.K, p.Min, p.Annot, p.Dry, p.Busy) + map[bool]string{true: ".maxage"}[p.MaxAge], CovName: "c08.grid", Groups: []h.GroupSpec{g}, Slots: 1, Quantum: Q,
 		FaultOps:         map[string]bool{sim.OpK8sGet: true, sim.OpK8sUpdate: true},
 		MaxEventsPerSlot: 1,
 		Events: func(hh *h.Hist, slot int) []h.Event {
@@ -296,6 +300,9 @@ func c08Scenarios(tier string, shard, shards int) []*h.Scenario {
 					add(func() *h.Scenario { return c08Build(c08Case{Times: times, Perm: pm, K: k, Dry: true}) })
 					if k < n {
 						add(func() *h.Scenario { return c08Build(c08Case{Times: times, Perm: pm, K: k, Busy: true}) })
+					}
+					if n >= 3 && k >= 2 {
+						add(func() *h.Scenario { return c08Build(c08Case{Times: times, Perm: pm, K: k, MaxAge: true}) })
 					}
 					switch {
 					case n <= 3 || (tier == "thorough" && n == 4):
